@@ -52,6 +52,10 @@ def merge_results(parts):
         out['contracts_used'] = sorted(set(out.get('contracts_used', [])) | set(p.get('contracts_used', [])))
         out['sources'].update(p.get('sources', {}))
         out['wall_s'] = round(out.get('wall_s', 0) + p.get('wall_s', 0), 3)
+        if p.get('cvc5_recheck'):
+            cur = out.setdefault('cvc5_recheck', {'agree': 0, 'undecided': 0, 'disagree': 0})
+            for k_, v_ in p['cvc5_recheck'].items():
+                cur[k_] = cur.get(k_, 0) + v_
     return out
 
 
@@ -180,6 +184,10 @@ def main(argv):
                     undecided.append(ob['id'])
             elif ob['result'] == 'unknown':
                 undecided.append(ob['id'])
+    recheck = {'agree': 0, 'undecided': 0, 'disagree': 0}
+    for r in results:
+        for k_, v_ in (r.get('cvc5_recheck') or {}).items():
+            recheck[k_] += v_
     n_ob = len(obligations)
     n_dis = sum(1 for o in obligations if o['result'] == 'discharged' or o.get('known_finding'))
     if n_ob == 0 and not bounded:
@@ -199,6 +207,7 @@ def main(argv):
             'undecided': undecided, 'errors': errors,
             'solver_s_total': round(sum(o.get('solver_s', 0) for o in obligations), 3),
             'known_findings_reproduced': known_lines,
+            'cvc5_recheck_of_z3_proofs': recheck if tier == 'thorough' else 'thorough tier only',
             'explanation': getattr(mod, 'EXPLANATION', ''),
         },
         'assumptions': assumptions + list(getattr(mod, 'ASSUMPTIONS', [])),
